@@ -10,7 +10,7 @@ PROP_FILES = ['Properties/C17']
 EXTRA_OBLIGATION_FILES = ['Proofs/AtomPanel', 'Proofs/LockOrder', 'Proofs/PanelLocks', 'Proofs/PanelWF', 'Proofs/PanelOwn',
                           'Proofs/PanelRefute', 'Extract/C17']
 TRUSTED = [
-    'atomic steps of the hand-written model as GENERATED obligations (Proofs/AtomPanel.v, re-proved on every run about coq/Gen/Atomicity.v; in a private re-generated copy under VERIF_EXTRA_OVERLAY): tools/lockscan (go/ast, syntactic types) is trusted to list, per function of internal/{server,multiplex,common,client}, every field access / call / sync/atomic operation with the critical sections (Lock..Unlock / RLock..RUnlock / deferred unlock, mutex identity by name) it lies in, every sync.Pool.Put with the later mentions of the object, and every variable a go statement shares with its spawner (anything it cannot resolve is in atomicity_errors, which must be empty); it does not follow calls (a region is what one function writes between Lock and Unlock), does no alias analysis, treats callbacks as running with no lock held, and counts call sites, not executions (a loop around one call site is invisible)',
+    'atomic steps of the hand-written model as GENERATED obligations (Proofs/AtomPanel.v, re-proved on every run about coq/Gen/Atomicity.v; in a private re-generated copy under VERIF_EXTRA_OVERLAY): tools/lockscan (go/ast, syntactic types) is trusted to list, per function of internal/{server,multiplex,common,client}, every field access / call / sync/atomic operation with the critical sections (Lock..Unlock / RLock..RUnlock / deferred unlock, mutex identity by name) it lies in, every sync.Pool.Put with the later mentions of the object, and every variable a go statement shares with its spawner (anything it cannot resolve is in atomicity_errors, which must be empty); it does not follow calls (a region is what one function writes between Lock and Unlock), does no alias analysis, treats callbacks as running with no lock held, and counts call sites, not executions (a loop around one call site is invisible); who removes entries (AtomReplay/AtomPanel/AtomMux): the scanner distinguishes element stores (w), delete/clear (del), assignment of the whole field (set), address-of (addr) and the map being handed on as a value (val); a delete on a local map is recorded under the name of that local',
     'Coq 8.16.1 kernel incl. vm_compute (no native_compute); all C17 theorems: Closed under the global context',
     'hand-written LTS coq/Model/Panel.v of userpanel.go / activeuser.go / the user-resolution part of dispatcher.go / localmanager.go at critical-section granularity (reductions listed in its header: Nullify one step, the updateUsageQueue loop one step, queue values read at the end of commitUpdate\'s critical section, no RWMutex writer preference)',
     'tools/lockscan (go/ast walker, ~2700 lines): lock identity by name, cross-package calls not followed, function values conservative; its output is re-generated on every run and the acyclicity / order / guarded-by theorems are re-proved about it',
